@@ -73,7 +73,7 @@ META = {
         "design_ref": "DESIGN.md §4 C08",
     },
     "C09": {
-        "text": "Invariant: the thread-local TIMESTAMP/CANCEL request stacks are empty after every resume, for every body (plain, timed, cancel, yields made in syscall state) and any interleaving of coroutines on the thread; hence a plain suspend reports (0, not cancelled) and a timed one its own time. Tie: several real coroutines resumed in generated orders on one thread, each resume's report compared.",
+        "text": "Invariant: the thread-local TIMESTAMP/CANCEL request stacks are empty after every resume, for every body (plain, timed, cancel, yields made in syscall state) and any interleaving of coroutines on the thread; hence a plain suspend reports (0, not cancelled) and a timed one its own time. Tie: several real coroutines resumed in generated orders on one thread, each resume's report compared. Migration: for every sequence of suspensions and resumptions on any threads each thread's stack of current entries holds exactly the coroutine it executes (C09_current_follows_migration); the address kept across the switch by the inlined accessors refuted (C09_old_cached_address_counterexample).",
         "note": "Trusted: as C07. Asynchronous (signal) cancel delivery is modelled at yield-point granularity.",
         "design_ref": "DESIGN.md §4 C09",
     },
